@@ -471,3 +471,8 @@ def _independence_contract(reflective):
 
 _independence_contract(False)
 _independence_contract(True)
+
+
+# concrete inputs found by the defect-hunting sub-agents (bounded replay, see contracts/hunt.py)
+from . import hunt as _hunt  # noqa: E402
+_hunt.register('C13')
